@@ -1,7 +1,7 @@
 """C16 - the two edge views under contract (pyvc) + bounded stand-in for precompute as a whole (checks/c16_bounded.py)."""
 from checks._simple import run_simple
 
-PROVED_TARGETS = ["cascade.low.views:dependants", "cascade.low.views:param_source"]
+PROVED_TARGETS = ["cascade.low.views:dependants", "cascade.low.views:param_source", "cascade.low.core:JobInstance.outputs_of"]
 
 
 def run(tier, seed):
